@@ -60,3 +60,146 @@ def verdicts(results, index, cases):
             else:
                 v[cid].append(e["msg"])
     return v, stray, crashed
+
+
+# ----------------------------------------------------------------------------------------------
+# general placement batches: a case consists of "pre" global-declaration lines (e.g. a family of
+# functions) and one expression/declaration placed in a context; diagnostics are attributed to the
+# case through (XPath, line).
+
+class Placer:
+    """builds one model holding many cases; remembers which (path, line) belongs to which case"""
+
+    def __init__(self, base_decl, tname="T", tdecl="", tparams=None, extra_templates=None, extra_system=""):
+        self.gl = base_decl.rstrip("\n").split("\n")      # global declaration lines
+        self.tl = tdecl.rstrip("\n").split("\n") if tdecl else []
+        self.sl = []                                         # system lines
+        self.locs = [{"id": "id0", "name": "L0"}]
+        self.bps = [{"id": "bp0"}]
+        self.edges = [{"src": "id0", "dst": "bp0"}]          # edge into the branchpoint (carries no case)
+        self.pmap = {}                                       # (path prefix, line or None) -> case id
+        self.queries = []
+        self.qmap = []
+        self.tname, self.tparams = tname, tparams
+        self.extra_templates = extra_templates or []
+        self.extra_system = extra_system
+        self.n = 0
+
+    def _lines(self, store, path, text, cid):
+        for ln in text.split("\n"):
+            store.append(ln)
+            self.pmap[(path, len(store))] = cid
+
+    def add(self, case):
+        cid, role, text = case["id"], case["role"], case["text"]
+        self.n += 1
+        for ln in case.get("pre", []):
+            self._lines(self.gl, "/nta/declaration", ln, cid)
+        for ln in case.get("tpre", []):
+            self._lines(self.tl, "/nta/template[1]/declaration", ln, cid)
+        if role == "gdecl":
+            self._lines(self.gl, "/nta/declaration", text, cid)
+        elif role == "tdecl":
+            self._lines(self.tl, "/nta/template[1]/declaration", text, cid)
+        elif role == "system":
+            self._lines(self.sl, "/nta/system", text, cid)
+        elif role in ("inv", "rate"):
+            l = {"id": "id%d" % len(self.locs), "name": "L%d" % len(self.locs)}
+            l["inv" if role == "inv" else "rate"] = text
+            self.locs.append(l)
+            self.pmap[("/nta/template[1]/location[%d]" % len(self.locs), None)] = cid
+        elif role == "prob":
+            self.edges.append({"src": "bp0", "dst": "id0", "prob": text})
+            self.pmap[("/nta/template[1]/transition[%d]" % len(self.edges), None)] = cid
+        elif role == "query":
+            self.queries.append(text)
+            self.qmap.append(cid)
+        else:
+            e = {"src": "id0", "dst": "id0", EDGE_ROLES[role]: text}
+            for k, v in (case.get("with") or {}).items():
+                e[k] = v
+            self.edges.append(e)
+            self.pmap[("/nta/template[1]/transition[%d]" % len(self.edges), None)] = cid
+
+    def job(self, jid, **kw):
+        t = {"name": self.tname, "decl": "\n".join(self.tl), "locations": self.locs, "branchpoints": self.bps,
+             "init": "id0", "edges": self.edges}
+        if self.tparams is not None:
+            t["params"] = self.tparams
+        system = "\n".join(self.sl + [self.extra_system or ("system %s;" % self.tname)])
+        m = {"decl": "\n".join(self.gl), "templates": [t] + self.extra_templates, "system": system}
+        j = {"id": jid, "entry": "xml_buffer", "text": xmlgen.render_xml(m), "structure": False}
+        if self.queries:
+            j["queries"] = self.queries
+        j.update(kw)
+        return j
+
+    def attribute(self, result):
+        """-> ({cid: [msgs]}, stray) for one model_run result"""
+        v, stray = {}, []
+        for e in result["dump"]["doc"]["errors"][:result.get("nerr_main", 10**9)]:
+            path = e.get("path", "")
+            m = _PFX.match(path)
+            cid = None
+            if m:
+                cid = self.pmap.get((m.group(1), None))
+            if cid is None:
+                cid = self.pmap.get((path, e.get("sl")))
+            if cid is None:
+                stray.append(e)
+            else:
+                v.setdefault(cid, []).append(e["msg"])
+        for k, q in enumerate(result.get("queries", [])):
+            cid = self.qmap[k]
+            msgs = [x["msg"] for x in q.get("errors", [])]
+            if q.get("outcome") != "return":
+                msgs.append("THROW:" + str(q.get("exc")) + ":" + str(q.get("what")))
+            if msgs:
+                v.setdefault(cid, []).extend(msgs)
+        return v, stray
+
+
+def _run_round(vf, cases, make_placer, run_dir, per, variant, name):
+    placers, jobs = {}, []
+    for bi in range(0, len(cases), per):
+        p = make_placer()
+        for c in cases[bi:bi + per]:
+            p.add(c)
+        jid = "%s%d" % (name, bi // per)
+        placers[jid] = p
+        jobs.append(p.job(jid))
+    res = vf.run_jobs(jobs, run_dir, variant=variant, name=name) if jobs else {}
+    verdict = {c["id"]: [] for c in cases}
+    import json as _json
+    for jid, r in res.items():
+        if r.get("outcome") in ("signal", "timeout", "abnormal-exit", "harness-error") or r.get("main", {}).get("outcome") != "return" \
+                or r.get("dump", {}).get("outcome") != "return":
+            raise vf.MachineryError("batch %s failed: %s" % (jid, _json.dumps(r)[:1500]))
+        v, stray = placers[jid].attribute(r)
+        if stray:
+            raise vf.MachineryError("batch %s: diagnostics not attributable to a case: %s" % (jid, stray[:2]))
+        for cid, msgs in v.items():
+            verdict[cid].extend(msgs)
+    return verdict
+
+
+def run_placed(vf, cases, make_placer, run_dir, per=60, variant="plain", name="pl"):
+    """cases -> {cid: [msgs]} (empty list = accepted).
+    libutap runs the type checker only when parsing reported no error, so a batch containing a rejected case says
+    nothing about the others. Therefore: rejected cases are removed and the rest re-run until a round is clean
+    (those cases are accepted by the complete pipeline); every rejected case is then decided alone."""
+    remaining = list(cases)
+    rejected = []
+    for rnd in range(6):
+        v = _run_round(vf, remaining, make_placer, run_dir, per, variant, "%s_r%d_" % (name, rnd))
+        bad = [c for c in remaining if v[c["id"]]]
+        if not bad:
+            break
+        rejected += bad
+        bad_ids = {c["id"] for c in bad}
+        remaining = [c for c in remaining if c["id"] not in bad_ids]
+    else:
+        raise vf.MachineryError("batches did not stabilise")
+    verdict = {c["id"]: [] for c in remaining}
+    verdict.update(_run_round(vf, rejected, make_placer, run_dir, 1, variant, name + "_single_"))
+    return verdict
